@@ -34,14 +34,20 @@ def dataframe_to_symbols(table: 'pandas.DataFrame') -> List[Symbol]:  # noqa: F8
 
     def convert_to_int_or_none(field: Any) -> Optional[int]:
         """Convert NaNs to `None`; `int` otherwise."""
-        if np.isnan(field):
+        if field is None or np.isnan(field):
             return None
         return int(field)
+
+    def convert_nan_to_none(field: Any) -> Any:
+        """Convert NaNs (missing values in the table) back to `None`; leave anything else unchanged."""
+        if isinstance(field, float) and np.isnan(field):
+            return None
+        return field
 
     symbols = []
 
     for _, row in table.iterrows():
-        entry = dict(row)
+        entry = {k: convert_nan_to_none(v) for k, v in dict(row).items()}
 
         entry['type'] = Type(entry['type'])  # Convert to `enum`erated variable type
         entry['lags'] = convert_to_int_or_none(entry['lags'])
